@@ -48,7 +48,7 @@ func CompileGlobs(globs []string) (*regexp.Regexp, error) {
 				}
 			case '?':
 				pattern.WriteByte('.')
-			case '.', '+', '(', ')', '|', '{', '}', '^', '$':
+			case '.', '+', '(', ')', '|', '{', '}', '^', '$', '[', ']':
 				pattern.WriteByte('\\')
 				pattern.WriteByte(b)
 			default:
